@@ -16,6 +16,7 @@ let () =
     | "wr" -> Wr.run ~tier:!tier ~seed:!seed ~only:!only acc; Wr.rule
     | "rd" -> Rd.run ~tier:!tier ~seed:!seed ~only:!only acc; Rd.rule
     | "c12" -> C12.run ~tier:!tier ~seed:!seed ~only:!only acc; C12.rule
+    | "c15" -> C15.run ~tier:!tier ~seed:!seed ~only:!only acc; C15.rule
     | "c17" -> C17.run ~tier:!tier ~seed:!seed ~only:!only acc; C17.rule
     | "c19" -> C19.run ~tier:!tier ~seed:!seed ~only:!only acc; C19.rule
     | "c20" -> C20.run ~tier:!tier ~seed:!seed ~only:!only acc; C20.rule
